@@ -242,5 +242,5 @@ def replay(case):
     else:
         T = Tally()
         couplers(T); penalty_combinators(T)
-        out = [v['detail'] for v in T.violations]
+        out = [v['detail'] for v in T.violations.values()]
     return out
